@@ -1,11 +1,25 @@
 #!/bin/bash
-# usage: tools/evalmut.sh <name> <prop> [more props...]   - apply /verif/seeded/<name>/patch.diff to /repo, run the quick checks, undo
+# usage: [TIER=thorough] [INPLACE=1] tools/evalmut.sh <name> <prop> [more props...]
+#   run the quick (or $TIER) checks against the seeded change /verif/seeded/<name>/patch.diff and record what they report
+#   in seeded/<name>/detection.txt (+ the replay files in seeded/<name>/replays/).
+#   INPLACE=1: git -C /repo apply the patch, run, git -C /repo checkout -- .   (nothing else may be running on /repo meanwhile)
+#   default:   the same sources in a throw-away worktree of /repo HEAD under /tmp/me with the patch applied, handed to the
+#              checks through VERIF_REPO - /repo is not touched, so long runs on /repo can go on in parallel.
 N=$1; shift
 cd /verif
-if ! git -C /repo diff --quiet; then echo "/repo has uncommitted changes"; exit 2; fi
-git -C /repo apply /verif/seeded/$N/patch.diff || { echo "patch does not apply"; exit 2; }
-export VERIF_SCRATCH_BASE=/tmp/me VERIF_OUT_DIR=/tmp/me/evalmut.$N.outdir
 mkdir -p /tmp/me
+export VERIF_SCRATCH_BASE=/tmp/me VERIF_OUT_DIR=/tmp/me/evalmut.$N.outdir
+if [ -n "$INPLACE" ]; then
+  if ! git -C /repo diff --quiet; then echo "/repo has uncommitted changes"; exit 2; fi
+  git -C /repo apply /verif/seeded/$N/patch.diff || { echo "patch does not apply"; exit 2; }
+else
+  WT=/tmp/me/evalwt.$N
+  git -C /repo worktree remove --force $WT >/dev/null 2>&1; rm -rf $WT
+  git -C /repo worktree add --detach $WT HEAD >/dev/null 2>&1 || { echo "worktree add failed"; exit 2; }
+  cp -p /repo/config.h $WT/config.h
+  git -C $WT apply /verif/seeded/$N/patch.diff || { echo "patch does not apply"; git -C /repo worktree remove --force $WT; exit 2; }
+  export VERIF_REPO=$WT
+fi
 OUT=/verif/seeded/$N/detection.txt; : > $OUT
 for P in "$@"; do
   S=$(date +%s)
@@ -18,6 +32,10 @@ done
 mkdir -p /verif/seeded/$N/replays
 for f in $(grep -o "replay=[^ ]*" $OUT | cut -d= -f2); do [ -f "$f" ] && cp "$f" /verif/seeded/$N/replays/; done
 sed -i "s#replay=/tmp/me/evalmut.$N.outdir/replays/[A-Z0-9]*/#replay=seeded/$N/replays/#" $OUT
-git -C /repo checkout -- .
+if [ -n "$INPLACE" ]; then
+  git -C /repo checkout -- .
+  git -C /repo diff --quiet && echo "(repo restored)"
+else
+  git -C /repo worktree remove --force $WT; rm -rf $WT
+fi
 rm -rf /tmp/me/evalmut.$N.outdir
-git -C /repo diff --quiet && echo "(repo restored)"
